@@ -3,6 +3,7 @@ import MimeModel.Props.C08
 import MimeModel.Lemmas.WalkPath
 import MimeModel.Model.Closed
 import MimeModel.Props.C01
+import MimeModel.Lemmas.HtmlUnescape
 /-
   C12 through `Detect`, with the closed model (no oracle): a document `<html> P <meta charset=qLq> rest`
   that contains no binary-data byte and is examined in full is reported as `text/html` with the
@@ -113,14 +114,14 @@ theorem html_accepts (ext : Ext) (nm tail : Bytes) (c : Nat) (lim : Nat)
   rfl
 
 /-- **C12 through `Detect`** (closed model): `<html> P <meta charset=qLq> rest`, free of binary-data
-    bytes and of `&` outside the label, examined in full: the result is `text/html` with
+    bytes, examined in full (character references anywhere outside the label are decoded by the tokenizer
+    model and do not reach the answer): the result is `text/html` with
     `charset = L` lower-cased (utf-8 for utf-16 labels), unless a root format in front of
     text/plain accepts the document -/
 theorem html_charset_detected (htmlNm P nm cs : Bytes) (form : ValForm) (L rest : Bytes) (lim : Nat)
     (hh : lowerASCII htmlNm = kHtml) (hP : Prologue P)
     (hnm : lowerASCII nm = kMeta) (hcs : lowerASCII cs = kwCharset)
     (hL : L ≠ []) (htok : ∀ c ∈ L, tokenChar c = true)
-    (hamp : ∀ c ∈ P ++ rest, c ≠ 0x26)
     (htext : Cust.text (tagText htmlNm [] [] ++ P ++ tagText nm [0x20] [charsetAttr cs form L []] ++ rest) = true)
     (hwhole : lim = 0 ∨ (tagText htmlNm [] [] ++ P ++ tagText nm [0x20] [charsetAttr cs form L []] ++ rest).length < lim) :
     let doc := tagText htmlNm [] [] ++ P ++ tagText nm [0x20] [charsetAttr cs form L []] ++ rest
@@ -145,22 +146,9 @@ theorem html_charset_detected (htmlNm P nm cs : Bytes) (form : ValForm) (L rest 
   have hdocShape : doc = 0x3C :: htmlNm ++ 0x3E :: (P ++ tagText nm [0x20] [charsetAttr cs form L []] ++ rest) := by
     simp [doc, tagText, attrsText]
   have hbom : fromBOM doc = csNone := by rw [hdocShape]; exact fromBOM_lt _
-  have hamp' : ∀ c ∈ (tagText htmlNm [] [] ++ P) ++ rest, c ≠ 0x26 := by
-    intro c hc
-    rcases List.mem_append.mp hc with h1 | h1
-    · rcases List.mem_append.mp h1 with h2 | h2
-      · -- inside `<html>`
-        simp only [tagText, attrsText, List.append_nil, List.cons_append, List.mem_cons, List.mem_append, List.mem_singleton,
-          List.nil_append, List.not_mem_nil, or_false] at h2
-        rcases h2 with rfl | h2 | rfl
-        · decide
-        · exact isLetter_ne_amp (hletters c h2)
-        · decide
-      · exact hamp c (List.mem_append.mpr (Or.inl h2))
-    · exact hamp c (List.mem_append.mpr (Or.inr h1))
-  have hb := html_meta_charset_bytes (tagText htmlNm [] [] ++ P) nm cs form L rest hP' hnm hcs hL htok
-    (by simpa [doc, List.append_assoc] using hbom) hamp'
-  have hb' : fromHTMLBytes doc = some (norm L) := by simpa [doc, List.append_assoc] using hb
+  have hb := Mime.HtmlUnescapeLemmas.charset_value_unescaped_simple (tagText htmlNm [] [] ++ P) nm cs form L rest hP' hnm hcs hL htok
+    (by simpa [doc, List.append_assoc] using hbom)
+  have hb' : fromHTMLBytesFull doc = norm L := by simpa [doc, List.append_assoc] using hb
   -- acceptance along the path root → text → html
   have hacc_text : accepts Closed.ext doc lim C08.textNode.info = true := by
     rw [C08.accepts_text Closed.ext _ lim _ C08.node_dets.1]; exact htext
@@ -193,15 +181,7 @@ theorem html_charset_detected (htmlNm P nm cs : Bytes) (form : ValForm) (L rest 
     unfold charsetFor
     have hne1 : (mimeTextHtml == mimeTextPlain) = false := by decide
     simp only [hne1, Bool.false_eq_true, ↓reduceIte, beq_self_eq_true]
-    unfold fromHTMLBytes at hb'
-    cases hst : startTags doc with
-    | none => rw [hst] at hb'; cases hb'
-    | some t =>
-      rw [hst] at hb'
-      simp only [Option.map_some, Option.some.injEq] at hb'
-      show Charset.fromHTML doc (Closed.ext.htmlToks doc) = norm L
-      have : Closed.ext.htmlToks doc = t := by simp [Closed.ext, hst]
-      rw [this]; exact hb'
+    exact hb'
   · exact Or.inr (by simpa [hhdr] using h)
 
 end Mime.C12
